@@ -112,7 +112,12 @@ fn observe(out: &mut Out, rng: &mut Rng, op: u8, b2: Option<u8>, fixed: Option<[
     } else if pend {
         s.m.trigger_key_interrupt();
     }
-    // now the fetch word has executed; step until the next fetch (or the second-opcode word for prefixes)
+    // now the fetch word has executed; step until the next fetch (or the second-opcode word for prefixes).
+    // (A halting opcode has stopped the machine at its fetch: C05's subject; the micro-sequencer is observed on.)
+    if s.m.state() != State::Running {
+        let st = s.m.verif_state();
+        s.m.raw_mut().verif_force(&st, State::Running);
+    }
     let mut steps = 0u32;
     let mut zero = false;
     let mut escape = false;
@@ -120,6 +125,11 @@ fn observe(out: &mut Out, rng: &mut Rng, op: u8, b2: Option<u8>, fixed: Option<[
     let mut edges = 0;
     while edges < 3000 {
         let before = s.m.verif_state();
+        // the word being left selects the next (first or second) opcode byte: a halting byte stops the machine there
+        let at_fetch = {
+            let sg = s.m.signals();
+            sg.mac0() && sg.mac2()
+        };
         s.m.raw_mut().trigger_clock_edge();
         edges += 1;
         if before.pending_wait_for_memory {
@@ -139,7 +149,16 @@ fn observe(out: &mut Out, rng: &mut Rng, op: u8, b2: Option<u8>, fixed: Option<[
             break;
         }
         if s.m.state() != State::Running {
-            // error stops are the subject of C05; continue observing the micro-sequencer
+            // error stops by the stack-pointer / program-counter supervision are the subject of C05: continue
+            // observing the micro-sequencer past those. Any OTHER stop in the middle of an instruction means the
+            // instruction does not get back to a fetch.
+            let explained = (before.pending_register_write.is_some()
+                && (!s.m.raw_mut().is_stackpointer_valid() || !s.m.raw_mut().is_program_counter_valid()))
+                || (at_fetch && st.last_bus_read <= 1); // a halting opcode taken into the instruction register
+            if !explained {
+                out.count("stopped-mid-instruction-without-cause");
+                break;
+            }
             let f = VerifRawState { ..st.clone() };
             s.m.raw_mut().verif_force(&f, State::Running);
         }
